@@ -769,6 +769,82 @@ func c15Run(c *Ctx, cs *c15Case, dir string, st *c15Stats) *c15Fail {
 	return c15CheckSVG(file, cs.pts, style, st)
 }
 
+// c15DXFObject: the DXF drawing object used directly - segments added in several Lines / Line calls with point markers
+// (Points) added before, between or after them. Every supplied segment must be a LINE on layer "Lines", in order.
+func c15DXFObject(c *Ctx, dir string) {
+	seg := func(i int) *sdf.Line2 {
+		f := float64(i)
+		return &sdf.Line2{v2.Vec{X: f, Y: 0.5 * f}, v2.Vec{X: f + 1, Y: 0.25 * f}}
+	}
+	for qi, seq := range []string{"LL", "LPL", "PL", "LP", "lPlL", "PLPLP", "LPlPl"} {
+		file := filepath.Join(dir, fmt.Sprintf("object-%d.dxf", qi))
+		d := render.NewDXF(file)
+		var want []*sdf.Line2
+		n := 0
+		for _, op := range seq {
+			switch op {
+			case 'L':
+				ls := []*sdf.Line2{seg(n), seg(n + 1), seg(n + 2)}
+				n += 3
+				d.Lines(ls)
+				want = append(want, ls...)
+			case 'l':
+				l := seg(n)
+				n++
+				d.Line(l)
+				want = append(want, l)
+			case 'P':
+				d.Points(v2.VecSet{{X: 1, Y: 1}, {X: -2, Y: 3}}, 0.1)
+			}
+		}
+		err := d.Save()
+		c.Eval(1)
+		tag := fmt.Sprintf("DXF object API sequence %q (L=Lines, l=Line, P=Points)", seq)
+		if err != nil {
+			c.Violate("", fmt.Sprintf("DXF-save-error %s: %v", tag, err), map[string]any{"sequence": seq})
+			continue
+		}
+		dr, err := dxf.FromFile(file)
+		os.Remove(file)
+		if err != nil {
+			c.Violate("", fmt.Sprintf("DXF-unreadable %s: %v", tag, err), map[string]any{"sequence": seq})
+			continue
+		}
+		k := 0
+		bad := ""
+		for _, e := range dr.Entities() {
+			l, ok := e.(*entity.Line)
+			if !ok {
+				continue
+			}
+			switch {
+			case k >= len(want):
+				bad = fmt.Sprintf("more LINE entities than the %d supplied segments", len(want))
+			case l.Layer() == nil || l.Layer().Name() != "Lines":
+				name := "<nil>"
+				if l.Layer() != nil {
+					name = l.Layer().Name()
+				}
+				bad = fmt.Sprintf("segment %d is on layer %q, want Lines", k, name)
+			case len(l.Start) < 2 || len(l.End) < 2 || l.Start[0] != want[k][0].X || l.Start[1] != want[k][0].Y || l.End[0] != want[k][1].X || l.End[1] != want[k][1].Y:
+				bad = fmt.Sprintf("segment %d read back as %v-%v, want %v", k, l.Start, l.End, *want[k])
+			}
+			if bad != "" {
+				break
+			}
+			k++
+		}
+		if bad == "" && k != len(want) {
+			bad = fmt.Sprintf("%d LINE entities for %d supplied segments", k, len(want))
+		}
+		if bad != "" {
+			c.Violate("", fmt.Sprintf("DXF-layer %s: %s", tag, bad), map[string]any{"sequence": seq})
+			continue
+		}
+		c.Distinct("dxf/object/" + seq)
+	}
+}
+
 func c15Pinned() []*c15Case {
 	t := func(name string, p ...[3]float64) *c15Case {
 		return &c15Case{Format: "3mf", Path: "stream", Coord: "pinned", Pinned: name, pts: [][][3]float64{p}}
@@ -874,6 +950,7 @@ func checkC15(c *Ctx) {
 			c.Distinct(fmt.Sprintf("%s/%s/len%d/%s", cs.Format, cs.Path, cs.LenCls, cs.Coord))
 		}
 	})
+	c15DXFObject(c, dir)
 	// some of the cases once more with the process temp directory somewhere awkward (see withTmpdirVariants)
 	withTmpdirVariants(c, func(tag string) {
 		m := len(cases)
